@@ -414,6 +414,11 @@ type C17E2ECase struct {
 	Script     []string `json:"script"`
 	Body       string   `json:"body"` // body text of scripted error statuses
 	Call       string   `json:"call"`
+	// Earlier: retry options given to the client before the one above (a later option replaces an earlier one; whatever
+	// the combination, the configuration the client ends up with lies in the documented ranges)
+	Earlier []C17Cfg `json:"earlier,omitempty"`
+	// EarlierSimple[i]: Earlier[i] is given as WithSimpleRetry(MaxRetries) instead of WithRetry
+	EarlierSimple []bool `json:"earlier_simple,omitempty"`
 }
 
 var c17Bodies = []string{"scripted status", "", "upstream said 500 Internal", "retry in 500 ms", "code 503", "error 429 ", "ok"}
@@ -427,6 +432,12 @@ func genC17E2E(t *rapid.T) C17E2ECase {
 		c.Script = append(c.Script, c17Outcome(t))
 	}
 	c.Body = rapid.SampledFrom(c17Bodies).Draw(t, "body")
+	if c.Retry && rapid.IntRange(0, 2).Draw(t, "earlier?") == 0 {
+		for i, n := 0, rapid.IntRange(1, 2).Draw(t, "nearlier"); i < n; i++ {
+			c.Earlier = append(c.Earlier, genC17Cfg(t))
+			c.EarlierSimple = append(c.EarlierSimple, rapid.Bool().Draw(t, "earliersimple"))
+		}
+	}
 	if c.Kind == 1 && rapid.IntRange(0, 3).Draw(t, "streamfail?") == 0 {
 		c.StreamFail = rapid.IntRange(1, 3).Draw(t, "streamfail")
 	}
@@ -495,6 +506,13 @@ func execC17E2E(c C17E2ECase) *Failure {
 	}
 	opts := []mcp.ClientOption{mcp.WithHTTPReqHandler(br), mcp.WithClientLogger(nopLogger{}), mcp.WithClientGetSSEEnabled(false)}
 	var v mcp.VerifRetryConfig
+	for i, e := range c.Earlier {
+		if i < len(c.EarlierSimple) && c.EarlierSimple[i] {
+			opts = append(opts, mcp.WithSimpleRetry(e.MaxRetries))
+		} else {
+			opts = append(opts, mcp.WithRetry(mcp.RetryConfig{MaxRetries: e.MaxRetries, InitialBackoff: time.Duration(e.InitialNS), BackoffFactor: e.factor(), MaxBackoff: time.Duration(e.MaxNS)}))
+		}
+	}
 	if c.Retry {
 		if c.Simple {
 			opts = append(opts, mcp.WithSimpleRetry(c.Cfg.MaxRetries))
@@ -520,6 +538,22 @@ func execC17E2E(c C17E2ECase) *Failure {
 			return Failf("C17/retry-option-lost", "WithRetry left the client without a retry configuration")
 		} else if f := checkValidated(c.Cfg.lib(), *got); f != nil {
 			return f
+		}
+	}
+	if c.Retry && c.Simple {
+		// WithSimpleRetry(n): n clamped, the rest whatever the defaults are - inside the documented ranges, a fixed point of Validate
+		got := mcp.VerifClientRetryConfig(cl)
+		if got == nil {
+			return Failf("C17/retry-option-lost", "WithSimpleRetry left the client without a retry configuration")
+		}
+		if want := validateModel(mcp.VerifRetryConfig{MaxRetries: c.Cfg.MaxRetries}).MaxRetries; got.MaxRetries != want {
+			return Failf("C17/validate/max-retries", "retry options %v then WithSimpleRetry(%d): the client retries %d times, want %d", c.Earlier, c.Cfg.MaxRetries, got.MaxRetries, want)
+		}
+		if f := checkValidated(*got, mcp.VerifRetryValidate(*got)); f != nil {
+			return f
+		}
+		if got.InitialBackoff < time.Millisecond || got.InitialBackoff > 30*time.Second || !(got.BackoffFactor >= 1 && got.BackoffFactor <= 10) || got.MaxBackoff < got.InitialBackoff || got.MaxBackoff > 5*time.Minute {
+			return Failf("C17/validate/out-of-range", "retry options %v then WithSimpleRetry(%d): the client ends up with %+v, outside the documented ranges", c.Earlier, c.Cfg.MaxRetries, *got)
 		}
 	}
 	mcp.VerifSetBackoffObserver(func(d time.Duration) bool { return true })
